@@ -110,6 +110,18 @@ def run_unit(unit, ctx):
     rows = rng.randint(3, 12)
     scale = rng.choice([0.1, 1.0, 1.0, 3.0])
     X = np.array([[rng.gauss(0, 1) * scale for _ in range(width)] for _ in range(rows)])
+    x_kind = ("float64", "int64", "float64", "float32", "intlist", "int16")[unit["i"] % 6]
+    X_in = None
+    if x_kind in ("int64", "intlist", "int16"):
+        # raw counts / ticks: an integer-typed data matrix (or nested lists of Python ints)
+        X = np.round(X * 3.0)
+        X_in = X.astype(np.int16 if x_kind == "int16" else np.int64)
+        if x_kind == "intlist":
+            X_in = [[int(v) for v in row] for row in X_in]
+    elif x_kind == "float32":
+        X_in = X.astype(np.float32)
+        X = X_in.astype(float)
+    R.stats.inc(f"data_matrix_{x_kind}")
     fp = gen.fingerprint([defn, X.tolist()])
     R.fps_all.append(fp)
     if len(defn["sensors"]) >= 2 or len(defn["control"]) >= 2:
@@ -121,7 +133,7 @@ def run_unit(unit, ctx):
         before = params_snapshot(ad)
         t_exc = None
         try:
-            T = ad.transform(X.copy())
+            T = ad.transform(copy.deepcopy(X_in) if X_in is not None else X.copy())
         except Exception as e:  # noqa: BLE001
             t_exc = e
         # by-hand run of the exported filter (monitored by the C04/C05 contracts)
@@ -198,7 +210,7 @@ def run_unit(unit, ctx):
             if T4.shape != T.shape or not np.array_equal(T4, T):
                 R.add([K.V("transform:1d-input-differs", "transform(1-D array) differs from transform(column matrix)", **w)])
         # mahalanobis
-        M = np.asarray(ad.mahalanobis(X.copy()), dtype=float)
+        M = np.asarray(ad.mahalanobis(copy.deepcopy(X_in) if X_in is not None else X.copy()), dtype=float)
         R.stats.inc("mahalanobis_checks")
         if M.shape != (T.size,) or not np.array_equal(M, T.flatten()):
             R.add([K.V("mahalanobis:value", f"mahalanobis is not the flattened transform (shape {M.shape})", got=M.tolist(), expected=T.flatten().tolist(), **w)])
